@@ -20,6 +20,17 @@ CLAIMS = {
     "C03": ("other", "Exactly-one-of {free, keep} per scanned element on every path, compaction count, full-range loops, retire() push/scan "
             "coupling, help_scan moves and clears, destructor drains of every record (HP and DHP). Cross-thread exactly-once is not decided.",
             "static analysis: path tables and def-use rules over clang-extracted CFGs", "DESIGN.md §4 C03"),
+    "C04": ("other", "Path-exhaustive obligations on the grace-period machinery of all four flavours: two flip-and-wait phases (signal flavour: "
+            "membar / two epoch switches each followed by a quiescent-state wait / membar) inside the RCU lock scope, reclamation only "
+            "afterwards and limited to the pre-increment epoch; flip_and_wait flips first, then waits for every attached record with no other "
+            "filter; reader side snapshots the global word and fences on outermost entry, nests by +-1, is_locked/check_grace_period test "
+            "exactly the nest bits / phase bit. Not decided: sufficiency of two phases, container-side read-lock discipline (planned), raw_ptr/"
+            "exempt_ptr lifetime.", PATHS, "DESIGN.md §4 C04"),
+    "C05": ("other", "Path-exhaustive obligations on the reclamation code of the RCU flavours: one push attempt per retired pointer, free exactly "
+            "when it did not fit (after synchronize), free-or-keep exactly once per popped element under the epoch guard (clear_buffer, "
+            "disposer thread), Destruct()/destructors drain with the maximal epoch before delete, general_instant frees once after synchronize, "
+            "retire_ptr/batch_retire hand over each element once with the current epoch tag. Buffer delivery itself is C07.", PATHS,
+            "DESIGN.md §4 C05"),
     "C10": ("other", "Decision table over every path of FCDeque::fc_process: each collision row (op-codes recovered from the path, ends derived "
             "from fc_apply) is push/pop in the right argument order and either same-end or guarded by m_Deque.empty(); collided record is "
             "forgotten; collide() completes both records once and hands the value over; the op-code each public method publishes is executed "
